@@ -24,16 +24,36 @@ use tu_verif::run::Run;
 /// form a ZWJ sequence
 const SIGMA1: [&str; 11] = ["a", " ", "ä", "€", "😀", "\u{301}", "\r", "\n", "\u{200d}", "👩", "💻"];
 /// special-token spellings and their look-alike fragments next to multi-byte text
-const FRAGMENTS: [&str; 10] = ["<pad>", "<bos>", "<unk>", "<pa", "pad>", "<", ">", "ä", "a", "😀"];
+const FRAGMENT_SETS: [[&str; 10]; 2] = [
+    ["<pad>", "<bos>", "<unk>", "<pa", "pad>", "<", ">", "ä", "a", "😀"],
+    // for the special-token set with regular-expression metacharacters: the spellings themselves,
+    // pieces of them, and texts an unescaped pattern would match ("B" for the class [B+S], "<eas" for
+    // the dot, "x>" for the alternation and the question mark)
+    ["[B+S]", "<e.s|x?>", "<unk>", "[B", "S]", "<eas|x?>", "B", "x>", "e", "ä"],
+];
 /// symbols of the character tokenizer's alphabet (round trip)
 const SIGMA3: [&str; 7] = ["a", "Z", "0", "\"", "\\", " ", "~"];
-const SPECIALS: [&str; 4] = ["<unk>", "<bos>", "<eos>", "<pad>"];
+/// special-token sets [unk, bos, eos, pad]; the second one spells bos and eos with characters that
+/// are regular-expression metacharacters ([ ] + . | ?)
+const SPECIAL_SETS: [[&str; 4]; 2] = [["<unk>", "<bos>", "<eos>", "<pad>"], ["<unk>", "[B+S]", "<e.s|x?>", "<pad>"]];
+static VARIANT: std::sync::atomic::AtomicUsize = std::sync::atomic::AtomicUsize::new(0);
+
+fn variant() -> usize {
+    VARIANT.load(std::sync::atomic::Ordering::Relaxed)
+}
+fn specials() -> &'static [&'static str; 4] {
+    &SPECIAL_SETS[variant()]
+}
+fn fragments() -> &'static [&'static str; 10] {
+    &FRAGMENT_SETS[variant()]
+}
 const UNK: &str = "<unk>";
 const PAD: &str = "<pad>";
 
 /// prefix / suffix lists, including lists of different lengths
 fn affixes() -> [(Vec<&'static str>, Vec<&'static str>); 4] {
-    [(vec![], vec![]), (vec!["<bos>"], vec!["<eos>"]), (vec!["<bos>", "<bos>"], vec!["<eos>"]), (vec![], vec!["<eos>", "<pad>"])]
+    let [_, bos, eos, pad] = *specials();
+    [(vec![], vec![]), (vec![bos], vec![eos]), (vec![bos, bos], vec![eos]), (vec![], vec![eos, pad])]
 }
 
 // ---------------------------------------------------------------------------------------------
@@ -81,7 +101,7 @@ impl Space {
         if i < self.n1 {
             ("sigma1", nth_string(&SIGMA1, i), true)
         } else if i < self.n1 + self.n2 {
-            ("fragments", nth_string(&FRAGMENTS, i - self.n1), true)
+            ("fragments", nth_string(fragments(), i - self.n1), true)
         } else {
             ("char-alphabet", nth_string(&SIGMA3, i - self.n1 - self.n2), false)
         }
@@ -155,7 +175,7 @@ impl<'a> Prepared<'a> {
     fn new(s: &'a str) -> Self {
         Prepared {
             s,
-            parsed: scan(s, &SPECIALS),
+            parsed: scan(s, specials()),
             plain: if s.is_empty() { vec![] } else { vec![Seg::Regular(s)] },
             nontrivial: !s.is_ascii() || s.contains('<') || s.contains('>'),
         }
@@ -191,11 +211,11 @@ struct CharCfg {
 
 fn byte_cfg_json(c: &ByteCfg) -> Value {
     json!({"use_graphemes": c.graphemes, "groups": if c.code_point_groups { "code_points" } else { "bytes" },
-           "pad_to_multiple_of": c.pad_to, "special_tokens": SPECIALS, "pad": PAD, "prefix": c.prefix, "suffix": c.suffix})
+           "pad_to_multiple_of": c.pad_to, "special_tokens": specials(), "pad": PAD, "prefix": c.prefix, "suffix": c.suffix})
 }
 
 fn char_cfg_json(c: &CharCfg) -> Value {
-    json!({"use_graphemes": c.graphemes, "unk_token": UNK, "special_tokens": SPECIALS, "pad": PAD, "prefix": c.prefix, "suffix": c.suffix})
+    json!({"use_graphemes": c.graphemes, "unk_token": UNK, "special_tokens": specials(), "pad": PAD, "prefix": c.prefix, "suffix": c.suffix})
 }
 
 fn strs(v: &Value) -> Vec<String> {
@@ -251,7 +271,7 @@ fn char_cfgs() -> Vec<CharCfg> {
 }
 
 fn special_config(prefix: &[String], suffix: &[String]) -> SpecialConfig {
-    SpecialConfig { pad: PAD.to_string(), tokens: SPECIALS.iter().map(|s| s.to_string()).collect(), prefix: prefix.to_vec(), suffix: suffix.to_vec() }
+    SpecialConfig { pad: PAD.to_string(), tokens: specials().iter().map(|s| s.to_string()).collect(), prefix: prefix.to_vec(), suffix: suffix.to_vec() }
 }
 
 /// The id of every configured special token: the unique position at which the vocabulary lists its
@@ -259,7 +279,7 @@ fn special_config(prefix: &[String], suffix: &[String]) -> SpecialConfig {
 fn resolve_specials(tok: &dyn Tokenize) -> Result<(Vec<Vec<u8>>, HashMap<String, u32>), String> {
     let vocab = catch(|| tok.get_vocab()).map_err(|p| format!("get_vocab panicked: {p}"))?.map_err(|e| format!("get_vocab failed: {e}"))?;
     let mut ids = HashMap::new();
-    for sp in SPECIALS {
+    for sp in *specials() {
         let at: Vec<usize> = (0..vocab.len()).filter(|i| vocab[*i] == sp.as_bytes()).collect();
         if at.len() != 1 {
             return Err(format!("the vocabulary lists {sp:?} at ids {at:?}, expected exactly one id"));
@@ -484,8 +504,13 @@ fn check_char(run: &mut Run, sub: &CharSubject, p: &Prepared, ign: bool) {
 
 fn main() {
     let mut run = Run::from_env("C01");
-    assert!(unambiguous(&SPECIALS), "the special-token set must be prefix-free and overlap-free");
+    for set in &SPECIAL_SETS {
+        assert!(unambiguous(set), "the special-token sets must be prefix-free and overlap-free");
+    }
     if let Some(c) = run.replay_case() {
+        let recorded = strs(&c["config"]["special_tokens"]);
+        let v = SPECIAL_SETS.iter().position(|set| set.iter().map(|x| x.to_string()).collect::<Vec<_>>() == recorded).unwrap_or(0);
+        VARIANT.store(v, std::sync::atomic::Ordering::Relaxed);
         let s = c["s"].as_str().unwrap().to_string();
         let ign = c["ignore_special_tokens"].as_bool().unwrap();
         let p = Prepared::new(&s);
@@ -501,11 +526,17 @@ fn main() {
     let (l1, l2, l3) = (run.pick(5, 6), run.pick(5, 6), run.pick(5, 6));
     let space = Space {
         n1: count_strings(SIGMA1.len(), l1),
-        n2: count_strings(FRAGMENTS.len(), l2),
+        n2: count_strings(FRAGMENT_SETS[0].len(), l2),
         n3: count_strings(SIGMA3.len(), l3),
         chunk: run.pick(256, 2048),
     };
+    // second pass: the special-token set with metacharacters, on its fragment alphabet only
+    let space2 = Space { n1: 0, n2: count_strings(FRAGMENT_SETS[1].len(), l2), n3: 0, chunk: space.chunk };
     if let Some(n) = run.describe_unit() {
+        if n >= space.units() {
+            println!("{}", json!({"special_tokens": SPECIAL_SETS[1], "fragment_strings_chunk": n - space.units(), "chunk": space.chunk}));
+            return;
+        }
         let lo = n * space.chunk;
         let hi = ((n + 1) * space.chunk).min(space.total());
         if lo >= hi {
@@ -525,11 +556,11 @@ fn main() {
     let bcfgs = byte_cfgs();
     let ccfgs = char_cfgs();
     run.bounds.insert("alphabet_sigma1".into(), json!(SIGMA1));
-    run.bounds.insert("alphabet_fragments".into(), json!(FRAGMENTS));
+    run.bounds.insert("alphabet_fragments".into(), json!(FRAGMENT_SETS));
     run.bounds.insert("alphabet_char_round_trip".into(), json!(SIGMA3));
     run.bounds.insert("max_symbols".into(), json!({"sigma1": l1, "fragments": l2, "char_round_trip": l3}));
     run.bounds.insert("strings".into(), json!({"sigma1": space.n1, "fragments": space.n2, "char_round_trip": space.n3}));
-    run.bounds.insert("special_tokens".into(), json!(SPECIALS));
+    run.bounds.insert("special_token_sets".into(), json!(SPECIAL_SETS));
     run.bounds.insert(
         "byte_configs".into(),
         json!({"count": bcfgs.len(), "grid": "use_graphemes {f,t} x groups {bytes,code_points} x pad_to_multiple_of {None,128} x prefix/suffix {[]/[], [bos]/[eos], [bos,bos]/[eos], []/[eos,pad]}", "ignore_special_tokens": [false, true]}),
@@ -541,19 +572,22 @@ fn main() {
     run.bounds.insert("units".into(), json!(space.units()));
     run.extra.insert(
         "rule".into(),
-        json!("every string over each alphabet up to the length bound, in shortlex order, x every tokenizer configuration x ignore_special_tokens; byte tokenizers on sigma1 and fragments, char tokenizers on all three alphabets; a case is non-trivial when the string contains a multi-byte character or '<' / '>' (a special-token spelling or a fragment of one)"),
+        json!("every string over each alphabet up to the length bound, in shortlex order, x every tokenizer configuration x ignore_special_tokens; byte tokenizers on sigma1 and fragments, char tokenizers on all three alphabets; a case is non-trivial when the string contains a multi-byte character or '<' / '>' (a special-token spelling or a fragment of one); a second pass uses a special-token set whose spellings contain regular-expression metacharacters, on its own fragment alphabet"),
     );
     run.assumptions.push("the special-token set {<unk>,<bos>,<eos>,<pad>} (plus <extra_token_N> under pad_to_multiple_of, which no enumerated string contains) is prefix-free and overlap-free, so the parse into special tokens and text is unique and independent of the order of the regex alternation".into());
     run.assumptions.push("a special token's id is the id at which get_vocab lists its spelling (agreeing with token_to_id); the character tokenizer's alphabet is the set of single-code-point non-special vocabulary entries".into());
 
+    let (mut parsed_specials, mut unknowns) = (0u64, 0u64);
+    for (v, space, unit0) in [(0usize, &space, 0u64), (1, &space2, space.units())] {
+    VARIANT.store(v, std::sync::atomic::Ordering::Relaxed);
+    let (bcfgs, ccfgs) = (byte_cfgs(), char_cfgs());
     let bytes: Vec<ByteSubject> = bcfgs.iter().filter_map(|c| build_byte(&mut run, c)).collect();
     let chars: Vec<CharSubject> = ccfgs.iter().filter_map(|c| build_char(&mut run, c)).collect();
     if let Some(c) = chars.first() {
         run.bounds.insert("char_alphabet_size".into(), json!(c.alphabet.len()));
     }
-    let (mut parsed_specials, mut unknowns) = (0u64, 0u64);
     for unit in 0..space.units() {
-        if !run.unit(unit) {
+        if !run.unit(unit0 + unit) {
             continue;
         }
         if run.out_of_time() {
@@ -593,6 +627,7 @@ fn main() {
             }
         }
         run.tick();
+    }
     }
     run.count_n("strings-with-a-parsed-special-token", parsed_specials);
     run.count_n("strings-with-a-character-outside-the-char-alphabet", unknowns);
